@@ -208,6 +208,52 @@ func c06GenTable(rng *rand.Rand) (table []c06Entry) {
 	return table
 }
 
+// c06Capitalise respells answers of a generated table: in 30 % of the tables
+// canonical names (CNAME targets and, independently, pattern-onto-itself
+// answers) get upper-case letters - all of them, so that whole chains and
+// cycles are capitalised, or each with its own probability, so that they are
+// mixed; "A"/"AAAA" exceptions are occasionally written in another case and
+// IPv6 values in upper case.
+func c06Capitalise(rng *rand.Rand, table []c06Entry) []c06Entry {
+	mode := rng.Intn(100)
+	if mode < 70 {
+		return table
+	}
+	pTarget, pSelf := 100, 100
+	if mode >= 82 {
+		pTarget, pSelf = 45, 30
+	}
+	if mode >= 94 {
+		// Targets only; exceptions and self-references as written.
+		pSelf = 0
+	}
+	out := append([]c06Entry(nil), table...)
+	for i := range out {
+		e := &out[i]
+		switch r := c06Read(*e); {
+		case r.kind == c06KindCNAME && strings.EqualFold(e.Answer, e.Domain):
+			if rng.Intn(100) < pSelf {
+				e.Answer = c06MixCase(rng, e.Answer)
+			}
+		case r.kind == c06KindCNAME:
+			if rng.Intn(100) < pTarget {
+				e.Answer = c06MixCase(rng, e.Answer)
+			}
+		case r.kind == c06KindExcA || r.kind == c06KindExcAAAA:
+			if pSelf > 0 && rng.Intn(100) < 15 {
+				odd := map[string][]string{"A": {"a"}, "AAAA": {"aaaa", "Aaaa", "aAAA"}}[e.Answer]
+				e.Answer = odd[rng.Intn(len(odd))]
+			}
+		case r.kind == c06KindAAAA:
+			if rng.Intn(100) < 25 {
+				e.Answer = strings.ToUpper(e.Answer)
+			}
+		}
+	}
+
+	return out
+}
+
 // c06Scripted are tables every run contains: the examples of AGHTechDoc and
 // of the package's own tests plus the corner cases named in DESIGN.
 func c06Scripted() [][]c06Entry {
@@ -252,6 +298,26 @@ func c06Scripted() [][]c06Entry {
 		e("a.example.org", "AAAA", "a.example.org", "A"),
 		e("a.example.org", "fd00::1", "*.example.org", "10.0.0.1"),
 		e("a.example.org", "ext.invalid", "ext.invalid", "10.0.0.1"),
+		// Canonical names spelled with upper-case letters: a pair, a cycle
+		// entered from outside (media -> NAS -> Storage -> NAS), cycles made
+		// of capitalised targets only, mixed ones, chains into wildcards.
+		e("a.example.org", "B.example.org", "b.example.org", "A.example.org"),
+		e("c.example.org", "A.A.example.org", "a.a.example.org", "B.A.example.org", "b.a.example.org", "A.A.example.org"),
+		e("c.example.org", "A.A.EXAMPLE.ORG", "a.a.example.org", "B.A.EXAMPLE.ORG", "b.a.example.org", "C.B.EXAMPLE.ORG",
+			"c.b.example.org", "B.A.EXAMPLE.ORG"),
+		e("a.example.org", "B.example.org", "b.example.org", "c.example.org", "c.example.org", "A.example.org"),
+		e("a.example.org", "b.example.org", "b.example.org", "C.Example.Org", "c.example.org", "b.example.org"),
+		e("other.test", "A.Other.Test", "a.other.test", "Other.Test", "*.other.test", "10.0.0.1"),
+		e("*.example.org", "A.OTHER.TEST", "*.other.test", "B.EXAMPLE.ORG"),
+		e("*.a.example.org", "Z.a.example.org", "z.a.example.org", "10.0.0.1"),
+		e("a.example.org", "Z.a.example.org", "*.a.example.org", "10.0.0.1", "*.a.example.org", "fd00::1"),
+		e("a.example.org", "z.A.EXAMPLE.ORG", "*.a.example.org", "10.0.0.1"),
+		e("a.example.org", "A.example.org", "a.example.org", "10.0.0.1"),
+		e("a.example.org", "A.EXAMPLE.ORG", "A.EXAMPLE.ORG", "b.example.org", "b.example.org", "A.Example.org"),
+		e("*.example.org", "*.EXAMPLE.org", "*.example.org", "10.0.0.2"),
+		e("a.example.org", "a", "a.example.org", "10.0.0.1", "a.example.org", "fd00::1"),
+		e("a.example.org", "aaaa", "*.example.org", "Aaaa", "*.example.org", "FD00::2"),
+		e("a.example.org", "EXT.invalid", "b.example.org", "Cdn.Ext.Invalid"),
 	}
 }
 
@@ -372,6 +438,7 @@ func TestVerifC06Table(t *testing.T) {
 	rep.Assume("the watchdog (20 s of wall clock per table batch of 126 CheckHost calls that each take microseconds) is the only use of real time; its firing is reported as non-termination")
 	rng := rep.Rand("tables")
 	prng := rep.Rand("perms")
+	crng := rep.Rand("answercase")
 
 	prevOut := log.Writer()
 	log.SetOutput(io.Discard)
@@ -394,7 +461,7 @@ func TestVerifC06Table(t *testing.T) {
 			table = scripted[ti]
 			rep.Class("tables:scripted")
 		} else {
-			table = c06GenTable(rng)
+			table = c06Capitalise(crng, c06GenTable(rng))
 			rep.Class("tables:generated")
 		}
 		rep.Event("tables")
@@ -492,6 +559,13 @@ func TestVerifC06Table(t *testing.T) {
 			for k := 0; k < 3; k++ {
 				o := obs[qi][k]
 				rep.Event("observed:" + o.shape())
+				if k == 0 && (exp.Zone == "mixed-case-cname-answer" || exp.Zone == "odd-case-exception-answer") {
+					spelled := ""
+					if c06HasUpper(o.Canon) {
+						spelled = ":canonical-name-as-spelled"
+					}
+					rep.Event("in_zone:" + exp.Zone + ":product_answered:" + o.shape() + spelled)
+				}
 				if o.Pass && (o.Canon != "" || len(o.IPs) > 0) {
 					rep.Violate("pass-with-data", "a not-rewritten result carries a canonical name or addresses", wit(k))
 					reported = true
@@ -534,19 +608,22 @@ func TestVerifC06Table(t *testing.T) {
 
 	// The run must have seen the situations the property is about.
 	need := map[string]int{
-		"saw:cname-over-address":                50,
-		"saw:cname:exact-over-wildcard":         20,
-		"saw:cycle:through-queried-name":        20,
-		"saw:cycle:not-containing-queried-name": 20,
-		"values-exact-over-wildcard":            50,
-		"values-most-specific-wildcard":         50,
-		"self-exception":                        50,
-		"type-exception-exact":                  20,
-		"empty-no-value":                        50,
-		"empty-other-qtype":                     50,
-		"cname>values-exact":                    50,
-		"cname>chain-leaves-table":              20,
-		"zone:cname-cycle":                      20,
+		"saw:cname-over-address":                                        50,
+		"saw:cname:exact-over-wildcard":                                 20,
+		"saw:cycle:through-queried-name":                                20,
+		"saw:cycle:not-containing-queried-name":                         20,
+		"values-exact-over-wildcard":                                    50,
+		"values-most-specific-wildcard":                                 50,
+		"self-exception":                                                50,
+		"type-exception-exact":                                          20,
+		"empty-no-value":                                                50,
+		"empty-other-qtype":                                             50,
+		"cname>values-exact":                                            50,
+		"cname>chain-leaves-table":                                      20,
+		"zone:mixed-case-cname-answer":                                  50,
+		"saw:cycle:with-capitalised-target:through-queried-name":        20,
+		"saw:cycle:with-capitalised-target:not-containing-queried-name": 20,
+		"zone:cname-cycle":                                              20,
 	}
 	needKeys := make([]string, 0, len(need))
 	for c := range need {
